@@ -1,13 +1,36 @@
 package main
 
 import (
+	"bytes"
+	"context"
 	"fmt"
 	"os"
 	"strings"
 
 	"gvh/c14lab"
 	"gvh/fedlab"
+
+	"github.com/wundergraph/graphql-go-tools/execution/engine"
+	"github.com/wundergraph/graphql-go-tools/execution/graphql"
 )
+
+// frameWriter records every flushed frame of an incremental (@defer) response.
+type frameWriter struct {
+	buf    bytes.Buffer
+	frames []string
+}
+
+func (w *frameWriter) Write(p []byte) (int, error) { return w.buf.Write(p) }
+func (w *frameWriter) Flush() error {
+	w.frames = append(w.frames, w.buf.String())
+	w.buf.Reset()
+	return nil
+}
+func (w *frameWriter) Complete()        {}
+func (w *frameWriter) Heartbeat() error { return nil }
+func (w *frameWriter) Error(data []byte) {
+	w.frames = append(w.frames, "ERROR "+string(data))
+}
 
 // probe: run one operation on a named fixture with a protected set and denials, print everything.
 //
@@ -64,6 +87,29 @@ func cmdProbe(a map[string]string) {
 		}
 		if ba != nil {
 			fmt.Printf("  batch calls=%d asked=%v\n", ba.Calls, ba.Asked)
+		}
+		if a["frames"] != "" {
+			// incremental delivery: run once more with a writer that keeps every flushed frame
+			fw := &frameWriter{}
+			var opts []engine.ExecutionOptions
+			var pf2 *c14lab.PostFetch
+			switch m {
+			case c14lab.Post:
+				pf2 = &c14lab.PostFetch{D: d}
+				opts = append(opts, engine.WithAuthorizer(pf2))
+			case c14lab.Pre:
+				opts = append(opts, engine.WithPreFetchFieldAuthorizer(&c14lab.Batch{D: d}))
+			}
+			err := fx.Lab.Engine.Execute(context.Background(), &graphql.Request{Query: op}, fw, opts...)
+			fmt.Printf("  frames err=%v\n", err)
+			for i, f := range fw.frames {
+				fmt.Printf("   frame[%d] %s\n", i, f)
+			}
+			if pf2 != nil {
+				for _, q := range pf2.Object {
+					fmt.Printf("   AuthorizeObjectField ds=%q type=%q field=%q\n", q.DS, q.Type, q.Field)
+				}
+			}
 		}
 	}
 }
